@@ -595,7 +595,7 @@ pub fn run(ctx: &Ctx) -> &'static str {
     if ctx.tier == Tier::Thorough && !ctx.failed() {
         real_threads(ctx, 6);
     }
-    unsubscribe_race(ctx, ctx.tier.pick(1_500, 20_000));
+    unsubscribe_race(ctx, ctx.tier.pick(800, 20_000));
     crate::props::e2e::run(ctx, crate::props::e2e::Phase::Subscription, ctx.tier.pick(1, 2));
     "exploration"
 }
